@@ -102,6 +102,8 @@ func c18(w *core.World, r *core.Report) {
 		ruleRefusalReasons(w, r, b)
 	}
 
+	r.Rule("R18.8", "the static key table names every key of the multi-key commands (rows equal the published key specifications; shared with R10.9): builder and client both resolve keys through it", 1)
+	ruleMultiKeySpecs(w, r)
 	r.Rule("R18.7", "snapshot units: the slot (and with it the marker's slot tag) is computed from the key the unit's commands are written under", 1)
 	if f := fn(w, r, "(*syncer.RedisOutput).buildBisyncRdbReplayUnit"); f != nil {
 		isTarget := isResultOf("(*syncer.RedisOutput).bisyncRdbTargetKey", -1)
